@@ -323,6 +323,9 @@ def kani_cmd(target, harness_full, jobs, json_out, harness_timeout, playback=Fal
         cmd += ["-Z", "concrete-playback", "--concrete-playback=print"]
     else:
         cmd += ["-j", str(jobs), "--export-json", json_out, "--harness-timeout", f"{harness_timeout}s"]
+    tail = [x for x in extra if x.startswith("CBMC:")]
+    if tail:  # per-loop unwinding bounds passed straight to CBMC (must be last on the command line)
+        cmd = [x for x in cmd if not x.startswith("CBMC:")] + ["--cbmc-args"] + [x[5:] for x in tail]
     return cmd
 
 
